@@ -111,6 +111,19 @@ def r1(F, R):
                     R.ok("C18-R1", key, site, "followed by array_normalize whenever the kind is Microcanonical")
                 else:
                     R.bad("C18-R1", key, site, "velocity written by %s is not renormalised on every microcanonical path: the momentum leaves the unit sphere" % wt["callee"]["name"])
+    # the closed form needs the norm of the gradient it is applied to: an ESH entry point of the Math trait that receives a second scalar
+    # (a pre-computed / cached norm) can be handed one that belongs to another gradient
+    for tp, tr in F.traits.items():
+        if not path_ends(tp, "math::Math"):
+            continue
+        for it in tr.get("items", []):
+            if it.get("inputs") is not None and str(it["name"]).startswith("esh_momentum_update"):
+                scal = [x for x in it["inputs"] if str(x) in ("f64", "std::option::Option<f64>", "&f64")]
+                if len(scal) != 1:
+                    R.bad("C18-R1", "Math::%s:scalars" % it["name"], tp, "Math::%s takes %d scalar arguments besides the vectors (expected the step size only): a gradient norm "
+                          "supplied from outside need not be the norm of the gradient argument" % (it["name"], len(scal)))
+                else:
+                    R.ok("C18-R1", "Math::%s:scalars" % it["name"], tp, "the ESH update receives the step size only and computes the gradient norm itself")
     # ESH kernel: last assignment loop scales by 1/sqrt(sum p^2) of the updated momentum
     for b in F.trait_method_impls("math::math::Math", "esh_momentum_update") or F.trait_method_impls("Math", "esh_momentum_update"):
         if not b.hir:
